@@ -50,7 +50,16 @@ def run(ctx):
         p = ctx.run([vr, "conc-run", "-repo", core.REPO, "-seed", str(ctx.seed + gi), "-g", str(g), "-rounds", "1" if q else "2", "-out", out],
                     env={"GORACE": "halt_on_error=0 log_path=" + logp, "GOMAXPROCS": str(procs)}, timeout=3300, check=False)
         if p.returncode not in (0, 66):       # 66 = the race detector reported something (see the log)
-            raise core.Infra("conc-run failed (%d): %s" % (p.returncode, p.stderr[-1500:]))
+            m = re.search(r"^fatal error: (concurrent map [a-z ]+)", p.stderr, re.M)
+            if not m:
+                raise core.Infra("conc-run failed (%d): %s" % (p.returncode, p.stderr[-1500:]))
+            # the Go runtime aborts the process when it sees unsynchronised map access: that is the data race itself
+            fr = re.findall(r"^github\.com/invopop/gobl[/.]([^\s(]+)\(", p.stderr, re.M)
+            site = fr[0] if fr else "unknown"
+            ctx.disagreements.append({"cls": "conc-race:fatal:" + site, "family": "conc",
+                                      "what": "the process was aborted by the Go runtime (fatal error: %s) in %s while goroutines worked on independent documents (G=%d, GOMAXPROCS=%d)" % (m.group(1), site, g, procs),
+                                      "replay": {"k": "race", "g": 0, "op": "fatal:" + site, "doc": "", "same": False, "seq": "", "got": ""}})
+            continue
         # race reports become events of the trace
         reports = []
         for f in glob.glob(logp + ".*"):
